@@ -42,7 +42,7 @@ META = {
                 "link control word with CRC-5) and of a data packet payload (DPPSTART, bytes, CRC-32 directly after "
                 "the last byte for every tail size, DPPEND, idle fill; DPPABORT when delayed) with bit-serial CRCs, "
                 "and a receiver written from the standard. TLC explores every ready / start-latency / payload-take "
-                "schedule for lengths 0..5 and proves the round trip on the specification. The real "
+                "schedule for lengths 0..4 (0..9 thorough) and proves the round trip on the specification. The real "
                 "RawPacketTransmitter (and the stack DataPacketTransmitter -> PacketTransmitter) is driven with "
                 "TLC-simulated schedules and random headers/payloads (every length 0..13, longer ones, all ready "
                 "patterns); TLC validates every emitted word and `done`, and the accepted words are replayed into "
@@ -58,7 +58,7 @@ META = {
                 "header with bit-serial CRC-16 / CRC-5, DPPSTART, data-length bytes, CRC-32): it owes exactly one "
                 "verdict per data packet, good iff all three CRCs are right, and the payload stream must carry "
                 "exactly data-length bytes. TLC explores every placement of not-valid words, every CRC corruption "
-                "combination, lengths 0..5 and following packets, and proves exactly-once on the specification. The "
+                "combination, lengths 0..4 (0..9 thorough) and following packets, and proves exactly-once on the specification. The "
                 "real DataPacketReceiver is fed TLC-generated streams and random packets (lengths 0..13, 16, 33, "
                 "corrupted CRCs, truncated payloads, not-valid words with any data at any position, following idle / "
                 "link command / header traffic); TLC validates every recorded cycle.",
@@ -331,7 +331,7 @@ def check_C35(rep):
     # 2a. spec -> code: TLC-simulated schedules of the composition
     sim_cfg = tlc.render_cfg(_cfg("MCLinkCommand_sim.cfg.tmpl"),
                              {"Cmds": tla_set(range(16)), "Subs": tla_set(range(16)), "Corrs": allc, "MaxCmds": 3})
-    behs = tlc.simulate(SPEC_DIR, "MCLinkCommand", sim_cfg, num=40 if quick else 300, depth=30, seed=rep.seed)
+    behs = tlc.simulate(SPEC_DIR, "MCLinkCommand", sim_cfg, num=40 if quick else 300, depth=30, seed=rep.seed, timeout=1200)
     for b in behs:
         stim = []
         for _, st in b[1:]:
@@ -752,7 +752,7 @@ def check_C36(rep):
     rep.assume("round trip: the accepted words are replayed contiguously into RawHeaderPacketReceiver and "
                "DataPacketReceiver; only the data receiver's first report is judged here (exactly-once is C40)")
 
-    for sub, label in ([({"MaxLen": 5, "MaxPackets": 1, "MaxLat": 2}, "lengths 0..5, one packet"),
+    for sub, label in ([({"MaxLen": 4, "MaxPackets": 1, "MaxLat": 2}, "lengths 0..4 (every tail size), one packet"),
                         ({"MaxLen": 1, "MaxPackets": 2, "MaxLat": 1}, "two packets back to back")] if quick else
                        [({"MaxLen": 9, "MaxPackets": 1, "MaxLat": 2}, "lengths 0..9, one packet"),
                         ({"MaxLen": 2, "MaxPackets": 3, "MaxLat": 2}, "three packets")]):
@@ -772,7 +772,7 @@ def check_C36(rep):
     # spec -> code: TLC-simulated schedules (header family of the model, every length 0..9)
     sim_cfg = tlc.render_cfg(_cfg("MCPacketTx.cfg.tmpl"), {"MaxLen": 9, "MaxPackets": 3, "MaxLat": 1})
     sim_cfg = "\n".join(l for l in sim_cfg.splitlines() if not l.startswith("INVARIANT"))
-    behs = tlc.simulate(SPEC_DIR, "MCPacketTx", sim_cfg, num=25 if quick else 200, depth=60, seed=rep.seed)
+    behs = tlc.simulate(SPEC_DIR, "MCPacketTx", sim_cfg, num=16 if quick else 200, depth=60, seed=rep.seed, timeout=1200)
     for b in behs:
         packets = []
         cur = None
@@ -1014,7 +1014,7 @@ def check_C40(rep):
                "2 cycles after the second valid word following the CRC-32")
     rep.assume("not-valid words may show any data (zero, the previous or the next word, HPSTART pattern, random)")
 
-    for sub, label in ([({"MaxLen": 5, "MaxPackets": 1, "MaxGaps": 2}, "one packet, lengths 0..5, all CRC combinations, 2 gaps anywhere"),
+    for sub, label in ([({"MaxLen": 4, "MaxPackets": 1, "MaxGaps": 2}, "one packet, lengths 0..4 (every tail size), all CRC combinations, 2 gaps anywhere"),
                         ({"MaxLen": 1, "MaxPackets": 2, "MaxGaps": 1}, "two packets back to back")] if quick else
                        [({"MaxLen": 9, "MaxPackets": 1, "MaxGaps": 2}, "one packet, lengths 0..9"),
                         ({"MaxLen": 5, "MaxPackets": 1, "MaxGaps": 3}, "one packet, 3 gaps"),
@@ -1098,7 +1098,7 @@ def check_C40(rep):
     # spec -> code: streams generated by TLC from the model's Env (they contain good packets: witness class)
     sim_cfg = tlc.render_cfg(_cfg("MCDataRx.cfg.tmpl"), {"MaxLen": 9, "MaxPackets": 3, "MaxGaps": 4})
     sim_cfg = "\n".join(l for l in sim_cfg.splitlines() if not l.startswith("INVARIANT"))
-    behs = tlc.simulate(SPEC_DIR, "MCDataRx", sim_cfg, num=25 if quick else 200, depth=60, seed=rep.seed)
+    behs = tlc.simulate(SPEC_DIR, "MCDataRx", sim_cfg, num=25 if quick else 200, depth=60, seed=rep.seed, timeout=1200)
     for b in behs:
         st = [s_["in"]["iw"] for _, s_ in b[1:]] + [word(0, 0)] * 6
         run(None, 0.0, True, "witness-tlc", "tlc-simulate", stream=st)
